@@ -76,7 +76,8 @@ theorem shape_splitArgs : Facts.shape_splitArgs = some "a7348323a0861ddc" := by 
 /-- [C08] `Conn.Raw` is the body the model transcribes -/
 theorem shape_Conn_Raw : Facts.shape_Conn_Raw = some "5132543dbb42025e" := by decide
 
-/-- [C08] `Conn.write` is the body the model transcribes -/
+/-- [C08,C09,C10,C20] `Conn.write` is the body the model transcribes: rate limit (sleep for exactly what `rateLimit` returns,
+whatever the line says), then the line and CRLF in one buffered write, flushed; PASS lines masked in the debug record -/
 theorem shape_Conn_write : Facts.shape_Conn_write = some "40794eb131cbea91" := by decide
 
 /-- [C08] `Conn.Pass` is the body the model transcribes -/
@@ -106,28 +107,28 @@ theorem shape_Conn_Whois : Facts.shape_Conn_Whois = some "56761433ee778d4e" := b
 /-- [C08] `Conn.Who` is the body the model transcribes -/
 theorem shape_Conn_Who : Facts.shape_Conn_Who = some "f8bcbaf4459036c3" := by decide
 
-/-- [C08] `Conn.Privmsg` is the body the model transcribes -/
+/-- [C08,C11] `Conn.Privmsg` is the body the model transcribes -/
 theorem shape_Conn_Privmsg : Facts.shape_Conn_Privmsg = some "c442d85d8877db0f" := by decide
 
-/-- [C08] `Conn.Privmsgln` is the body the model transcribes -/
+/-- [C08,C11] `Conn.Privmsgln` is the body the model transcribes -/
 theorem shape_Conn_Privmsgln : Facts.shape_Conn_Privmsgln = some "961d863c5ba3c2ab" := by decide
 
-/-- [C08] `Conn.Privmsgf` is the body the model transcribes -/
+/-- [C08,C11] `Conn.Privmsgf` is the body the model transcribes -/
 theorem shape_Conn_Privmsgf : Facts.shape_Conn_Privmsgf = some "4b0c782d335e5f60" := by decide
 
-/-- [C08] `Conn.Notice` is the body the model transcribes -/
+/-- [C08,C11] `Conn.Notice` is the body the model transcribes -/
 theorem shape_Conn_Notice : Facts.shape_Conn_Notice = some "5a19cffe9f69b595" := by decide
 
-/-- [C08] `Conn.Ctcp` is the body the model transcribes -/
+/-- [C08,C11] `Conn.Ctcp` is the body the model transcribes -/
 theorem shape_Conn_Ctcp : Facts.shape_Conn_Ctcp = some "d26f4d9cc8fd5cb1" := by decide
 
-/-- [C08] `Conn.CtcpReply` is the body the model transcribes -/
+/-- [C08,C11] `Conn.CtcpReply` is the body the model transcribes -/
 theorem shape_Conn_CtcpReply : Facts.shape_Conn_CtcpReply = some "18da7b97dc5fc47f" := by decide
 
 /-- [C08] `Conn.Version` is the body the model transcribes -/
 theorem shape_Conn_Version : Facts.shape_Conn_Version = some "becd97dd0bf03db4" := by decide
 
-/-- [C08] `Conn.Action` is the body the model transcribes -/
+/-- [C08,C11] `Conn.Action` is the body the model transcribes -/
 theorem shape_Conn_Action : Facts.shape_Conn_Action = some "bdbda06a0b2d363c" := by decide
 
 /-- [C08] `Conn.Topic` is the body the model transcribes -/
@@ -489,7 +490,8 @@ theorem shape_Conn_Close : Facts.shape_Conn_Close = some "dd307aad985d0218" := b
 foreground handler, of the connection has finished: a new connection cannot start before) -/
 theorem shape_Conn_closeFor : Facts.shape_Conn_closeFor = some "7a4905e768233287" := by decide
 
-/-- [C06,C07] `Conn.initialise` is the body the model transcribes -/
+/-- [C03,C06,C07,C18] `Conn.initialise` is the body the model transcribes: both queues are made afresh for every connection
+(nothing queued on or for an earlier connection reaches the next one) -/
 theorem shape_Conn_initialise : Facts.shape_Conn_initialise = some "ea200d427896e9d6" := by decide
 
 /-- [C06,C07] `Conn.Connected` is the body the model transcribes: it reads the flag under `cmu`, not under `mu`, so
